@@ -177,4 +177,15 @@ PROPS = {
         "assumptions": ["poll_ready of the sink is Ready when a packet is written (a busy sink makes poll_write return Pending, which write_all_buf retries)"],
         "timeout": {"quick": 900, "thorough": 7200},
     },
+    "C19": {
+        "level_text": "Lean small-step semantics of the tokio read future (one poll = decode from the buffer, else one transport event; a keep-alive's reply is written inside the same future while the decoded packet is held in the future's locals; drop discards the locals, the connection buffer and transport persist). Proved for every frame sequence, readiness script on both halves and drop schedule: dropping at any suspension point at which no decoded packet is in flight (everything except the pending reply write) gives exactly the uninterrupted session — same deliveries, same outgoing bytes, same remaining state (cancel_safe_partial). The full statement is kept visible next to a kernel-checked negation witness (drop during the reply write loses the keep-alive and leaves half a reply); that case is a recorded finding. Tied by polling the real future by hand under a paused clock and dropping it at scripted suspension indices: every single and pair of drop indices on short sessions, random sessions with random readiness and drop sets; model and code agree line for line including on the lossy case.",
+        "level_note": "Trusted: Lean kernel; the harness (hand polling with a no-op waker, scripted transport). The proved theorem is the partial one; the missing part is exactly 'drop while the keep-alive reply write is pending', which is false on the current code. tokio's timeout wrapper and AsyncReadExt::read are modelled as: Pending leaves no state in the future.",
+        "technique": "Lean 4 proof (small-step semantics with drop; induction over the schedule) with a kernel-checked negation witness for the unproved part + differential correspondence by hand-polled futures",
+        "trusted": [
+            "hand-modelled, tied by the correspondence run only: the tokio Framed::read future's suspension points and locals",
+            "modelled not verified: tokio's AsyncReadExt::read / write_all_buf futures (cancel-safe: no bytes consumed on Pending; bytes accepted by poll_write are gone from the buffer), time::timeout",
+        ],
+        "rule": "cancel lines: frames x read script with Pending events x write script x set of suspension indices at which the future is dropped; result = delivered results and all outgoing bytes; distinct = distinct op text",
+        "assumptions": ["suspension points are the Pending returns of the transport's poll_read / poll_write (the 90 s timeout adds none of its own before it fires)"],
+    },
 }
